@@ -22,6 +22,9 @@ import (
 
 var none = Cand{K: "none"}
 
+var hashLabels = []string{"none", "md5", "sha1", "sha224", "sha256", "sha384", "sha512", "h7", "h8", "hx"}
+var algLabels = []string{"anon", "rsa", "dsa", "ecdsa", "s7", "s8", "sx"}
+
 // monitor is the oracle-free statement of C19, judged per log IDENTITY (the 32-byte id a row key or a
 // cosigned STH names, whatever its spelling): whatever the specification says,
 //   - every row ever observed carries a valid signature of its log, sits under the configured spelling of
@@ -112,7 +115,7 @@ func (m *monitor) observe(in *Inst, rep *vh.Report, ctxt any) {
 		}
 		root, _ := base64.StdEncoding.DecodeString(s.Root)
 		sig, _ := base64.StdEncoding.DecodeString(s.Sig)
-		if err := ref.Verify(&m.w.Keys[l].PublicKey, ref.STHSignatureInput(s.TS, s.Size, root), sig); err != nil {
+		if err := ref.Verify(m.w.Pub(l), ref.STHSignatureInput(s.TS, s.Size, root), sig); err != nil {
 			rep.Violate("monitor:stored-badsig", "stored an STH without a valid signature of the configured log: "+err.Error(), ctxt)
 		}
 		if p := m.last[l]; p != nil {
@@ -152,6 +155,9 @@ func relation(held, c Cand) string {
 	}
 	if held.K != "sth" {
 		return "tofu"
+	}
+	if c.Fam == "X" {
+		return "alien" // a tree head nobody signed, of a tree nobody has (its size is a random 64-bit number)
 	}
 	switch {
 	case c.Size < held.Size:
@@ -221,6 +227,7 @@ func runBehaviour(w *World, beh []Step, idx int, rep *vh.Report, dir, shm string
 		if s.Replay == "" {
 			s.Replay = "none"
 		}
+		s.Cand = s.Cand.norm()
 		if s.Cand.IsReplay() != (s.Replay != "none") {
 			panic(infra("step's replay class and candidate disagree: " + s.Cand.String() + " / " + s.Replay))
 		}
@@ -245,7 +252,7 @@ func runBehaviour(w *World, beh []Step, idx int, rep *vh.Report, dir, shm string
 			}
 			got := func() Got { defer release(); return w.DoDirect(direct, s, held, variant) }()
 			rel := relation(held, s.Cand)
-			kinds[s.Op+"/"+s.Reply.Code+"/"+s.Reply.Kind+"/"+rel+"/"+reqClass(s)] = true
+			kinds[s.Op+"/"+s.Reply.Code+"/"+s.Reply.Kind+"/"+rel+"/"+reqKind(s)] = true
 			if got.Code != s.Reply.Code || got.Kind != s.Reply.Kind || got.Note != "" ||
 				(s.Op == "GetLogs" && strings.Join(got.Logs, ",") != strings.Join(sorted(s.Reply.Logs), ",")) {
 				rep.Violate(fmt.Sprintf("replay:%s:%s:pf=%s:%s:want=%s/%s:got=%s/%s", s.Op, rel, pfClass(s), reqClass(s), s.Reply.Code, s.Reply.Kind, got.Code, got.Kind),
@@ -314,10 +321,25 @@ func reqClass(s Step) string {
 	if s.Replay != "none" && s.Replay != "" {
 		parts = append(parts, "replay="+s.Replay)
 	}
+	// a member of the header family: hash byte / algorithm byte / form of the signature bytes
+	if s.Cand.IsHdr() {
+		parts = append(parts, "hdr="+s.Cand.HdrClass())
+	}
 	if len(parts) == 0 {
 		return "plain"
 	}
 	return strings.Join(parts, ",")
+}
+
+// reqKind is reqClass without the header labels (for the non-triviality key: the header family has
+// hundreds of members).
+func reqKind(s Step) string {
+	if s.Cand.IsHdr() {
+		c := s.Cand.norm()
+		s.Cand = Cand{}
+		return reqClass(s) + ",hdr=" + c.Form
+	}
+	return reqClass(s)
 }
 
 func pfClass(s Step) string {
@@ -344,7 +366,7 @@ func TestReplay(t *testing.T) {
 	if err != nil {
 		t.Fatal(err)
 	}
-	rep := vh.NewReport("c19-replay", "behaviours of Witness.tla (TLC simulation and transition cover) replayed step by step into the real witness, directly and through its HTTP server, with the log id spelled as the step says and the step's storage fault injected for real (a second connection to the database file holding a SHARED / RESERVED / EXCLUSIVE lock, or a cancelled context); an independent monitor judges stored rows and cosigned replies per 32-byte log id; non-trivial = distinct set of (operation, reply class, size relation, spelling/fault class) with at least two members")
+	rep := vh.NewReport("c19-replay", "behaviours of Witness.tla (TLC simulation and transition cover) replayed step by step into the real witness, directly and through its HTTP server, with the log id spelled as the step says and the step's storage fault injected for real (a second connection to the database file holding a SHARED / RESERVED / EXCLUSIVE lock, or a cancelled context); candidates of the header family (hash byte x signature algorithm byte x form of the signature bytes: the log's genuine SHA-256 signature, garbage, made by the log's key over the unhashed content, crafted from the public key of the ECDSA log for a verifier that takes the unhashed content for the digest) are materialized with std crypto for an ECDSA (L1) and an RSA (L2) log; an independent monitor judges stored rows and cosigned replies per 32-byte log id; non-trivial = distinct set of (operation, reply class, size relation, spelling/fault class) with at least two members")
 	dir := t.TempDir()
 	shm := dbDir(t)
 	workers := runtime.NumCPU()
@@ -369,6 +391,26 @@ func TestReplay(t *testing.T) {
 	close(ch)
 	wg.Wait()
 	rep.Replayed = len(behs)
+	nh, nc := 0, 0
+	for _, b := range behs {
+		for _, s := range b {
+			if s.Cand.IsHdr() {
+				nh++
+				if s.Cand.Form == "crafted" {
+					nc++
+				}
+			}
+		}
+	}
+	rep.Extra["header_family_steps"] = nh
+	rep.Extra["crafted_steps"] = nc
+	if r, err := theRing(); err == nil {
+		r.mu.Lock()
+		for l, c := range r.crafted {
+			rep.Extra["crafted_tries_"+l] = c.tries
+		}
+		r.mu.Unlock()
+	}
 	if len(behs) > 0 {
 		rep.Sample(behs[0])
 		rep.Sample(behs[len(behs)/2])
@@ -392,10 +434,10 @@ func TestTrace(t *testing.T) {
 	if err != nil {
 		t.Fatal(err)
 	}
-	rep := vh.NewReport("c19-trace", "concurrent Update/GetSTH callers on one real witness (file sqlite, one connection, -race), log ids in several spellings, about one update in ten carrying the signature bytes of a genuine STH offered earlier in the trace (by any caller, possibly still in flight) over another content with a proof correct for the forged tree, in every second trace another connection takes SHARED / RESERVED / EXCLUSIVE locks for a while (logged fault windows); invoke/return histories checked for linearizability by WitnessTrace.tla; non-trivial = trace in which at least two updates were stored")
+	rep := vh.NewReport("c19-trace", "concurrent Update/GetSTH callers on one real witness (file sqlite, one connection, -race), log ids in several spellings, about one update in eight a member of the header family (another hash / algorithm byte over genuine bytes, garbage, bytes made over the unhashed content), about one in ten carrying the signature bytes of a genuine STH offered earlier in the trace (by any caller, possibly still in flight) over another content with a proof correct for the forged tree, in every second trace another connection takes SHARED / RESERVED / EXCLUSIVE locks for a while (logged fault windows); invoke/return histories checked for linearizability by WitnessTrace.tla; non-trivial = trace in which at least two updates were stored")
 	dir := t.TempDir()
 	shm := dbDir(t)
-	var forged atomic.Int64
+	var forged, hdrs atomic.Int64
 	for tr := 0; tr < ntraces; tr++ {
 		faulty := tr%2 == 1
 		dsn := filepath.Join(dir, fmt.Sprintf("t%d.db", tr))
@@ -506,8 +548,35 @@ func TestTrace(t *testing.T) {
 					if log == "LX" {
 						cand.Signer = "bad"
 					}
+					if KeyAlg(cand.Signer) == "rsa" && cand.Idf != "wrong" {
+						// RSA signatures are deterministic: the variants of one content with and without a log_id field
+						// would carry the same signature bytes and could not be told apart in a cosigned reply
+						cand.TS = map[string]int{"absent": 1, "right": 2}[cand.Idf]
+					}
 					cand.Over = NoDonor
-					if cand.Signer != "bad" {
+					cand = cand.norm()
+					isHdr := false
+					if cand.Signer != "bad" && rng.Intn(8) == 0 {
+						// a member of the header family: the log's genuine signature bytes under another header, garbage,
+						// or bytes its key made over the unhashed content
+						isHdr = true
+						if KeyAlg(cand.Signer) == "rsa" {
+							cand.TS = 1 // the genuine bytes are those of the variant without a log_id field
+						}
+						cand.Hdr = Hdr{Hash: hashLabels[rng.Intn(len(hashLabels))], Alg: algLabels[rng.Intn(len(algLabels))]}
+						if rng.Intn(2) == 0 {
+							cand.Hdr.Alg = KeyAlg(cand.Signer)
+						}
+						cand.Form = []string{"signed", "garbage", "rawkey"}[rng.Intn(3)]
+						if cand.Form == "rawkey" && !noHash[cand.Hdr.Hash] {
+							cand.Form = "signed"
+						}
+						if cand.Form == "signed" && cand.Hdr == StdHdr(cand.Signer) {
+							cand.Form = "garbage"
+						}
+						hdrs.Add(1)
+					}
+					if cand.Signer != "bad" && !isHdr {
 						dmu.Lock()
 						from := log
 						if rng.Intn(8) == 0 { // now and then the signature of an STH of the other log
@@ -583,6 +652,7 @@ func TestTrace(t *testing.T) {
 	}
 	rep.Extra["events"] = rec.N
 	rep.Extra["replayed_signatures_offered"] = forged.Load()
+	rep.Extra["header_family_offered"] = hdrs.Load()
 	if forged.Load() == 0 {
 		t.Fatal("no update with a replayed signature was generated")
 	}
